@@ -400,3 +400,32 @@ func famZ7(modes []modeSpec, k int) []xferCase {
 	}
 	return out
 }
+
+// famZS: a burst of single-chunk packets of which every other one is lost, so that the receiver
+// holds as many isolated TSNs as its tracking window admits for that many packets.  The
+// acknowledgement that has to name them all is larger than the 8192-byte buffer the peer reads
+// its transport with as soon as there are more than 2041 holes.  After the burst the network is
+// perfect.
+func famZS(counts []int) []xferCase {
+	var out []xferCase
+	for _, n := range counts {
+		a := withBase(epCfg{NoInterleave: true}, 100, uint32(0)-uint32(n/2), 4000)
+		b := withBase(epCfg{Server: true, NoInterleave: true}, 100, 9, 4000)
+		a.MinCwnd = 1 << 20 // the burst goes out at once
+		var msgs []msgSpec
+		var kill []int
+		for i := 0; i < n; i++ {
+			msgs = append(msgs, msgSpec{Size: 60, PPI: 53})
+			if i%2 == 1 {
+				kill = append(kill, i)
+			}
+		}
+		out = append(out, xferCase{
+			Name: fmt.Sprintf("ZS/n%d", n),
+			K:    0,
+			Spec: &xferSpec{A: a, B: b, KillIdx: kill, KillN: 1, Horizon: 900 * time.Second, DrainWait: 300 * time.Second,
+				Streams: []streamSpec{{SID: 1, From: 0, Msgs: msgs}}},
+		})
+	}
+	return out
+}
